@@ -178,7 +178,7 @@ func c11Run(c *run.Ctx, nReq, nPing int, script []string, yields bool) {
 			}
 			w.WaitUntil(200*time.Millisecond, func() bool { return w.ReaderQuietLocked() })
 		case "unsolicited":
-			if cn := w.Cur(); cn != nil && cn.Alive() {
+			if cn := w.CurConn(); cn != nil && cn.Alive() {
 				switch c.Rng.Intn(3) {
 				case 0:
 					cn.Send(wire.Suback(uint16(0x7000+c.Rng.Intn(0xfff)), 1), "unsolicited SUBACK")
@@ -189,7 +189,7 @@ func c11Run(c *run.Ctx, nReq, nPing int, script []string, yields bool) {
 				}
 			}
 		case "break":
-			if cn := w.Cur(); cn != nil {
+			if cn := w.CurConn(); cn != nil {
 				if c.Rng.Intn(2) == 0 {
 					cn.EndInbound(-1, io.EOF)
 				} else {
@@ -491,7 +491,7 @@ func pingHandover(c *run.Ctx, variant string) {
 	if variant == "quit" {
 		// the first Ping is submitted; the connection breaks, which clears the slot; then its quit fires
 		w.WaitUntil(sim.StepTimeout, func() bool { return len(w.Broker.Held) > 0 })
-		w.Cur().EndInbound(-1, io.EOF)
+		w.CurConn().EndInbound(-1, io.EOF)
 		w.WaitUntil(sim.StepTimeout, func() bool { return len(w.Conns) > 1 && w.ReaderQuietLocked() })
 		// the first Ping got ErrBreak on its channel; hold it in the quit branch instead
 		// (select picks at random between the two; retry is pointless, so accept either)
